@@ -290,6 +290,13 @@ fn run_head() -> BoxedStrategy<Vec<u8>> {
 }
 
 const RUN_UNITS: &[&[u8]] = &[
+    // ECMA arrays / objects whose property names are decimal numbers, small and huge (a decoder that
+    // turns numeric keys into array positions must not size anything by them)
+    &[0x08, 0, 0, 0, 1, 0, 7, b'2', b'0', b'0', b'0', b'0', b'0', b'0', 0x05, 0, 0, 9],
+    &[0x08, 0, 0, 0, 1, 0, 10, b'4', b'2', b'9', b'4', b'9', b'6', b'7', b'2', b'9', b'5', 0x05, 0, 0, 9],
+    &[0x08, 0, 0, 0, 2, 0, 1, b'0', 0x05, 0, 20, b'1', b'8', b'4', b'4', b'6', b'7', b'4', b'4', b'0', b'7', b'3', b'7', b'0', b'9', b'5', b'5', b'1', b'6', b'1', b'5', 0x05, 0, 0, 9],
+    &[0x03, 0, 9, b'9', b'9', b'9', b'9', b'9', b'9', b'9', b'9', b'9', 0x05, 0, 0, 9],
+    &[0x08, 0, 0, 0, 1, 0, 2, b'-', b'1', 0x05, 0, 0, 9],
     &[0x09],
     &[0, 0, 9],
     &[0, 0],
